@@ -104,8 +104,8 @@ def run(ctx):
         # ---- the update returned is the one started with the right reset flag ------------
         starts = [c for c in b.calls() if c.name == "start" and (c.trait or "").endswith("PayloadTarget") and not b.is_cleanup(c.bb)]
         oks = len(starts) == 1 and K.arg_renders(starts[0]) == ["$self.target", reset_flag]
-        want_ret = "target⟵PayloadTarget::start($self.target, %s)" % reset_flag
-        oks = oks and all(want_ret in r for bi, r in upd if bi in upd_blocks)
+        want_rx = r"\w+⟵PayloadTarget::start\(\$self\.target, %s\)" % reset_flag      # whatever the local is called
+        oks = oks and all(re.search(want_rx, r) for bi, r in upd if bi in upd_blocks)
         ctx.ob("R-FLOW", "Client::%s:target-started-with-reset=%s" % (meth, reset_flag), oks,
                "Client::%s starts the target update with reset=%s and returns that very update" % (meth, "true" if reset_flag == "1" else "false"),
                where=b.loc, detail=[K.arg_renders(c) for c in starts])
@@ -117,7 +117,7 @@ def run(ctx):
             a = K.arg_renders(pu[0])
             det = a
             conv = r"Payload::to_payload\(%s\)↓Ok\.0" % PAY
-            okp = a[0] == want_ret and re.match("^" + conv + r"\.0$", a[1]) is not None and re.match("^" + conv + r"\.1$", a[2]) is not None
+            okp = re.match("^" + want_rx + "$", a[0]) is not None and re.match("^" + conv + r"\.0$", a[1]) is not None and re.match("^" + conv + r"\.1$", a[2]) is not None
         ctx.ob("R-FLOW", "Client::%s:push(action, payload)-of-the-received-PDU" % meth, okp,
                "Client::%s pushes exactly the (action, payload) pair converted from the PDU just read" % meth, where=b.loc, detail=det)
         # loop form: after reading a payload PDU, the next read is reachable only through version check, conversion and push
